@@ -31,8 +31,10 @@ const watchdog = 90 * time.Second
 
 // step kinds of a session script
 type step struct {
-	Kind string // cmd, append, idle, halfliteral, abort, logout
+	Kind string // cmd, append, idle, halfliteral, abort, abort-idle, abort-reset, wait-writers, logout
 	Text string
+
+	DelayUS int `json:",omitempty"` // abort-reset: microseconds between the command and the reset
 }
 
 type script struct {
@@ -44,6 +46,9 @@ type script struct {
 	// literal) and stays open until the server ends it.
 	NoLogin     bool
 	HalfLiteral bool
+
+	// Writer: the steps "wait-writers" of the other scripts wait until every script marked so has ended.
+	Writer bool
 }
 
 type scenario struct {
@@ -267,7 +272,21 @@ func runScenario(sc scenario) (out outcome) {
 		stop     = make(chan struct{})
 		start    = make(chan struct{})
 		marker   int32
+
+		writersLeft sync.WaitGroup
+		writersDone = make(chan struct{})
 	)
+
+	for _, scr := range sc.Scripts {
+		if scr.Writer && !scr.NoLogin {
+			writersLeft.Add(1)
+		}
+	}
+
+	go func() {
+		writersLeft.Wait()
+		close(writersDone)
+	}()
 
 	var (
 		wgStay   sync.WaitGroup
@@ -322,6 +341,10 @@ func runScenario(sc scenario) (out outcome) {
 
 		go func() {
 			defer wg.Done()
+
+			if scr.Writer {
+				defer writersLeft.Done()
+			}
 
 			u := b.Users[scr.User]
 
@@ -393,6 +416,26 @@ func runScenario(sc scenario) (out outcome) {
 				case "abort-idle":
 					if _, ok := c.IdleStart(); ok {
 						time.Sleep(time.Millisecond)
+					}
+
+					return
+				case "wait-writers":
+					select {
+					case <-writersDone:
+					case <-time.After(watchdog):
+					}
+				case "abort-reset":
+					// the client asks for an answer of many lines and resets the connection without reading it: the
+					// server's writes fail while the command is still producing responses
+					time.Sleep(5 * time.Millisecond) // lets the writers queue updates for this session
+
+					_ = c.Send([]byte("R1 " + st.Text + "\r\n"))
+
+					// the reset arrives right behind the command, or while the server is writing the answer
+					time.Sleep(time.Duration(st.DelayUS) * time.Microsecond)
+
+					if tc, ok := c.Conn().(*net.TCPConn); ok {
+						_ = tc.SetLinger(0)
 					}
 
 					return
@@ -683,7 +726,12 @@ func drawContention(t *rapid.T) scenario {
 				s.Steps = append(s.Steps, step{Kind: "cmd", Text: reads[rapid.IntRange(0, len(reads)-1).Draw(t, "r")]})
 			}
 
-			s.Steps = append(s.Steps, step{Kind: "abort-idle"})
+			if rapid.Bool().Draw(t, "reset") {
+				s.Steps = append(s.Steps, step{Kind: "abort-reset", DelayUS: rapid.SampledFrom([]int{0, 100, 2000}).Draw(t, "resetdelay"), Text: rapid.SampledFrom([]string{"NOOP", "NOOP", "CHECK", "FETCH 1:* (FLAGS UID)", "FETCH 1:* (FLAGS BODY.PEEK[])", `STORE 1 +FLAGS.SILENT (\Draft)`, "EXPUNGE"}).Draw(t, "resetcmd")})
+			} else {
+				s.Steps = append(s.Steps, step{Kind: "abort-idle"})
+			}
+
 			sc.Scripts = append(sc.Scripts, s)
 
 			continue
@@ -702,6 +750,81 @@ func drawContention(t *rapid.T) scenario {
 	}
 
 	return sc
+}
+
+// drawResetMidAnswer draws scenarios of a third family: a session has a large INBOX selected while one or two writers
+// change the flags of all its messages and leave; when they are gone the session sends one command whose answer has
+// to carry all those changes (or a FETCH of everything) and resets its connection without reading a byte, at a drawn
+// distance behind the command. The server's writes fail while the command still produces responses; the teardown
+// that follows (Server.Close once every script has ended) must complete and leave nothing behind.
+func drawResetMidAnswer(t *rapid.T) scenario {
+	sc := scenario{NUsers: 1, Teardown: "logout-close"} // the teardown that lets the scripts end first
+	sc.NoParallel = rapid.Bool().Draw(t, "noParallel")
+	sc.Seed = rapid.SampledFrom([]int{60, 150, 300}).Draw(t, "seed")
+
+	changes := []string{`STORE 1:* +FLAGS.SILENT (\Seen)`, `STORE 1:* FLAGS (\Flagged)`, `STORE 1:* -FLAGS (\Seen)`, `STORE 1:* +FLAGS (kw)`, `STORE 1:* FLAGS.SILENT (\Answered \Draft)`}
+
+	for i, n := 0, rapid.IntRange(1, 2).Draw(t, "writers"); i < n; i++ {
+		w := script{Box: "INBOX", Writer: true}
+
+		for j, k := 0, rapid.IntRange(1, 3).Draw(t, "len"); j < k; j++ {
+			w.Steps = append(w.Steps, step{Kind: "cmd", Text: rapid.SampledFrom(changes).Draw(t, "w")})
+		}
+
+		w.Steps = append(w.Steps, step{Kind: "logout"})
+		sc.Scripts = append(sc.Scripts, w)
+	}
+
+	for i, n := 0, rapid.IntRange(1, 3).Draw(t, "victims"); i < n; i++ {
+		v := script{Box: "INBOX"}
+
+		if rapid.Bool().Draw(t, "before") {
+			v.Steps = append(v.Steps, step{Kind: "cmd", Text: "NOOP"})
+		}
+
+		v.Steps = append(v.Steps, step{Kind: "wait-writers"})
+		v.Steps = append(v.Steps, step{Kind: "abort-reset",
+			DelayUS: rapid.SampledFrom([]int{0, 0, 50, 300, 2000}).Draw(t, "resetdelay"),
+			Text:    rapid.SampledFrom([]string{"NOOP", "NOOP", "CHECK", `STORE 1 +FLAGS.SILENT (\Draft)`, "EXPUNGE", "FETCH 1:* (FLAGS UID)", "FETCH 1:* (UID BODY.PEEK[])", "SEARCH ALL"}).Draw(t, "resetcmd")})
+		sc.Scripts = append(sc.Scripts, v)
+	}
+
+	if rapid.Bool().Draw(t, "bystander") {
+		sc.Scripts = append(sc.Scripts, script{Box: "INBOX", Steps: []step{{Kind: "cmd", Text: "NOOP"}, {Kind: "wait-writers"}, {Kind: "cmd", Text: "FETCH 1:* (FLAGS)"}, {Kind: "logout"}}})
+	}
+
+	return sc
+}
+
+func (sc scenario) hasStep(kind string) bool {
+	for _, scr := range sc.Scripts {
+		for _, st := range scr.Steps {
+			if st.Kind == kind {
+				return true
+			}
+		}
+	}
+
+	return false
+}
+
+// abortRun ends the test binary at once with the given verdict (a panic in a goroutine of its own is not recovered by
+// rapid).
+func abortRun(msg string) {
+	fmt.Fprintln(os.Stderr, msg)
+
+	go func() { panic("C19 violated (see above)") }()
+
+	select {}
+}
+
+func TestC19ResetMidAnswer(t *testing.T) {
+	ev.Checks(10, 150)
+	ev.ShrinkTime(time.Second) // a case that hangs costs the whole watchdog: report it instead of shrinking it
+
+	defer ev.ShrinkTime(30 * time.Second)
+
+	rapid.Check(t, func(t *rapid.T) { judgeScenario(t, drawResetMidAnswer(t)) })
 }
 
 func TestC19Contention(t *testing.T) {
@@ -779,6 +902,12 @@ func judgeScenario(t *rapid.T, sc scenario) {
 		}
 
 		if len(out.Problems) > 0 {
+			if sc.hasStep("abort-reset") && strings.Contains(strings.Join(out.Problems, "\n"), "did not return within") {
+				// a confirmed hang (gluon goroutines blocked for over a minute) costs several watchdogs per case:
+				// shrinking it would run into the driver's deadline, so the run ends here with the scenario written out
+				abortRun(fmt.Sprintf("VERIF-VIOLATION %s\nscenario:\n%s\nscenario (JSON, for C19_SCENARIO): %s", strings.Join(out.Problems, "\n"), describe, raw))
+			}
+
 			t.Fatalf("%s\nscenario:\n%s", strings.Join(out.Problems, "\n"), describe)
 		}
 
